@@ -67,7 +67,7 @@ Inv(e) ==
                       /\ after \ C = before \ C
                       /\ outA \ C = outB \ C)
           /\ IF e.m.clean
-             THEN CheckAll({"C12"}, <<"clean-then-skipped", e.id, skipped>>, skipped = {})
+             THEN CheckAll({"C12"} \cup (IF \E r \in R : G.kind[r] = "a" THEN {"C20"} ELSE {}), <<"clean-then-skipped", e.id, skipped>>, skipped = {})
              ELSE /\ CheckAll({"C03", "C18"}, <<"unchanged-target-executed-again", e.id, (C \cap builds \cap fresh \cap SeqToSet(e.m.withInput)) \cap ran>>,
                               \A t \in C \cap builds \cap fresh \cap SeqToSet(e.m.withInput) : t \in skipped)
                   /\ CheckAll({"C02", "C18"}, <<"changed-or-never-built-target-skipped", e.id, skipped \ fresh>>, skipped \subseteq fresh)
